@@ -542,7 +542,8 @@ class ConfigNode(metaclass=ConfigNodeMeta):
             made it unsafe might have been inherited ones, which "source" does not carry).
         '''
         unsafe = not self.ayns.safe or not source.ayns.safe
-        self.__dict__.update(source.__dict__)
+        # (the children have just been taken over one by one, under the names they have in *this* kind of container)
+        self.__dict__.update({ name: value for name, value in source.__dict__.items() if name != '_children' })
         if unsafe and self.ayns.safe:
             self._safe = False
 
